@@ -12,6 +12,8 @@ package main
 //   fmtvar <pkg> <value…> <script>       every entry point that reads the package's Formatter variable
 //   parservar <pkg> <receiver…> <script> <datahex>   UnmarshalText / UnmarshalJSON under a replaced Parser variable
 //   constraint.info <kind>               IsFloat IsSigned Min Max SmallestNonzero SizeBytes SizeBits
+//   errmsg <pkg> <funchex> <inputhex> nil|l:<len>:<max>|t:<hex>   Error() and Unwrap() of the package's parse-error type -> hex 1
+//   errmsg.real <pkg> <funchex> <inputhex> <max>   the error UnmarshalText returns for an input longer than the limit -> hex
 //
 // script (formatter): `d` = the variable keeps DefaultFormatter; `s:<outhex>:<mode>:<tag>` = a replacement that appends
 // <out> and the decimal flags to the buffer, or returns the error <tag> (mode 0 never, 1 always, 2 iff flags == 0,
@@ -248,6 +250,20 @@ func execExtra(c *Ctx, line string, f []string) string {
 		return fmt.Sprintf("%s %s %d %d", xSemStr(core), b01(v.IsZero()), v.Compare(core), core.Compare(v))
 	case "sem.consts":
 		return hx([]byte(sem.ZeroString)) + " " + hx([]byte(sem.ZeroStringTag))
+	case "errmsg":
+		if len(f) != 5 {
+			return "bad-op"
+		}
+		return xErrMsg(f[1], string(mustHex(f[2])), mustHex(f[3]), f[4])
+	case "errmsg.real":
+		if len(f) != 5 {
+			return "bad-op"
+		}
+		msg, fn := xRealTooLong(f[1], mustHex(f[3]), atoi(f[4]))
+		if fn != string(mustHex(f[2])) {
+			return "FUNC-CHANGED " + fn
+		}
+		return hx([]byte(msg))
 	case "date.acc":
 		if len(f) != 4 {
 			return "bad-op"
@@ -445,6 +461,117 @@ func execParserVar(c *Ctx, line string, f []string) string {
 	return "bad-op"
 }
 
+// xErrMsg builds the package's exported parse-error value (string and []byte instantiation must agree) and renders it
+func xErrMsg(pkg, fn string, input []byte, cause string) string {
+	var base, err error
+	switch p := strings.Split(cause, ":"); p[0] {
+	case "nil":
+	case "l":
+		switch pkg {
+		case "date":
+			base = date.ErrInputTooLong
+		case "sem":
+			base = sem.ErrInputTooLong
+		case "roman":
+			base = roman.ErrInputTooLong
+		case "uu":
+			base = uu.ErrInputTooLong
+		case "size":
+			base = size.ErrInputTooLong
+		}
+		err = fmt.Errorf("%w: %d > %d", base, atoi(p[1]), atoi(p[2]))
+	case "t":
+		err = errors.New(string(mustHex(p[1])))
+	default:
+		return "bad-op"
+	}
+	var es, eb error
+	switch pkg {
+	case "date":
+		es, eb = &date.ParseError[string]{Func: fn, Input: string(input), Err: err}, &date.ParseError[[]byte]{Func: fn, Input: input, Err: err}
+	case "sem":
+		es, eb = &sem.ParseError[string]{Func: fn, Input: string(input), Err: err}, &sem.ParseError[[]byte]{Func: fn, Input: input, Err: err}
+	case "roman":
+		es, eb = &roman.NumberFormatError[string]{Func: fn, Input: string(input), Err: err}, &roman.NumberFormatError[[]byte]{Func: fn, Input: input, Err: err}
+	case "uu":
+		es, eb = &uu.ParseError[string]{Func: fn, Input: string(input), Err: err}, &uu.ParseError[[]byte]{Func: fn, Input: input, Err: err}
+	case "size":
+		es, eb = &size.ParseError[string]{Func: fn, Input: string(input), Err: err}, &size.ParseError[[]byte]{Func: fn, Input: input, Err: err}
+	default:
+		return "bad-op"
+	}
+	if es.Error() != eb.Error() {
+		return "STRING-BYTES-DIFFER " + hx([]byte(es.Error())) + " " + hx([]byte(eb.Error()))
+	}
+	unwrapOK := errors.Unwrap(es) == err && errors.Unwrap(eb) == err && (base == nil || (errors.Is(es, base) && errors.Is(eb, base)))
+	return hx([]byte(es.Error())) + " " + b01(unwrapOK)
+}
+
+// xRealTooLong runs UnmarshalText of the package on an input longer than the limit max and returns the message and
+// the Func field of the typed error it gets
+func xRealTooLong(pkg string, input []byte, max int) (msg, fn string) {
+	var err error
+	switch pkg {
+	case "date":
+		old := date.MaxInputLength
+		date.MaxInputLength = max
+		var v date.Date
+		err = v.UnmarshalText(input)
+		date.MaxInputLength = old
+		var e *date.ParseError[[]byte]
+		if errors.As(err, &e) && errors.Is(err, date.ErrInputTooLong) && len(e.Input) == 0 {
+			fn = e.Func
+		}
+	case "sem":
+		old := sem.MaxInputLength
+		sem.MaxInputLength = max
+		var v sem.Ver
+		err = v.UnmarshalText(input)
+		sem.MaxInputLength = old
+		var e *sem.ParseError[[]byte]
+		if errors.As(err, &e) && errors.Is(err, sem.ErrInputTooLong) && len(e.Input) == 0 {
+			fn = e.Func
+		}
+	case "roman":
+		old := roman.MaxInputLength
+		roman.MaxInputLength = max
+		var v roman.Number
+		err = v.UnmarshalText(input)
+		roman.MaxInputLength = old
+		var e *roman.NumberFormatError[[]byte]
+		if errors.As(err, &e) && errors.Is(err, roman.ErrInputTooLong) && len(e.Input) == 0 {
+			fn = e.Func
+		}
+	case "uu":
+		old := uu.MaxInputLength
+		uu.MaxInputLength = max
+		var v uu.ID
+		err = v.UnmarshalText(input)
+		uu.MaxInputLength = old
+		var e *uu.ParseError[[]byte]
+		if errors.As(err, &e) && errors.Is(err, uu.ErrInputTooLong) && len(e.Input) == 0 {
+			fn = e.Func
+		}
+	case "size":
+		old := size.MaxInputLength
+		size.MaxInputLength = max
+		var v size.Size
+		err = v.UnmarshalText(input)
+		size.MaxInputLength = old
+		var e *size.ParseError[[]byte]
+		if errors.As(err, &e) && errors.Is(err, size.ErrInputTooLong) && len(e.Input) == 0 {
+			fn = e.Func
+		}
+	}
+	if err == nil {
+		return "NO-ERROR", "?"
+	}
+	if fn == "" {
+		return err.Error(), "?untyped"
+	}
+	return err.Error(), fn
+}
+
 // ------------------------------------------------------------------------------------------------ generators and direct oracles
 
 // xExpect runs one op line and compares the implementation's answer with an expectation computed here
@@ -475,6 +602,65 @@ func propEXTRA(c *Ctx) {
 	xFmtVars(c)
 	xParserVars(c)
 	xConstraint(c)
+	xErrMsgs(c)
+}
+
+// xErrMsgs: the exported error types with every kind of cause and ASCII inputs (control bytes, quotes, backslashes), and the
+// real too-long errors of UnmarshalText under several limits; a direct oracle checks that the real message does not
+// contain the input and is the same for two different inputs of one length
+func xErrMsgs(c *Ctx) {
+	pkgs := []string{"date", "sem", "roman", "uu", "size"}
+	inputs := [][]byte{nil, []byte("x"), []byte("2024-02-30"), []byte("a\"b\\c"), []byte("\x00\x01\a\b\f\n\r\t\v\x1f\x7f"), []byte(" ~!'`"), []byte("1.2.3-rc+b")}
+	n := xN(c, 40, 2000)
+	for i := 0; i < n; i++ {
+		b := make([]byte, c.R.Intn(12)+1)
+		for j := range b {
+			b[j] = byte(c.R.Intn(128))
+		}
+		inputs = append(inputs, b)
+	}
+	funcs := []string{"Parse", "DefaultParser", "", "Date.UnmarshalText", "x y"}
+	causes := []string{"nil", "l:11:10", "l:0:0", "l:9223372036854775807:1", "t:" + hx([]byte("boom")), "t:-", "t:" + hx([]byte("a: \"q\""))}
+	for _, p := range pkgs {
+		for i, in := range inputs {
+			for k, cause := range causes {
+				if i >= 7 && k != i%len(causes) {
+					continue
+				}
+				c.Op(fmt.Sprintf("errmsg %s %s %s %s", p, hxOrDash([]byte(funcs[(i+k)%len(funcs)])), hxOrDash(in), cause))
+			}
+		}
+		for _, max := range []int{1, 2, 9, 10, 45, 128, 1024} {
+			for _, over := range []int{1, 2, 7, 100} {
+				mk := func() []byte {
+					b := make([]byte, max+over)
+					for j := range b {
+						b[j] = byte('!' + c.R.Intn(90))
+					}
+					return b
+				}
+				in1, in2 := mk(), mk()
+				m1, fn := xRealTooLong(p, in1, max)
+				m2, _ := xRealTooLong(p, in2, max)
+				line := fmt.Sprintf("errmsg.real %s %s %s %d", p, hxOrDash([]byte(fn)), hx(in1), max)
+				c.Op(line)
+				c.Check(line)
+				if m1 != m2 {
+					c.Fail("EXTRA.errmsg.content", line, "two inputs of length %d get different messages: %q / %q", max+over, m1, m2)
+				}
+				if len(in1) >= 4 && strings.Contains(m1, string(in1[:4])) {
+					c.Fail("EXTRA.errmsg.echo", line, "the too-long message reproduces the input: %q", m1)
+				}
+			}
+		}
+	}
+}
+
+func hxOrDash(b []byte) string {
+	if len(b) == 0 {
+		return "-"
+	}
+	return hx(b)
 }
 
 func xSem(c *Ctx) {
